@@ -138,7 +138,7 @@ def parseDefs (s : String) : Option Macros :=
   if s.isEmpty then some [] else
   sequenceOpt ((s.splitOn ",").map fun d =>
     match d.splitOn "=" with
-    | [n, b] => some (n, parseToks b)
+    | n :: b :: more => some (n, parseToks ("=".intercalate (b :: more)))
     | _ => none)
 
 def handle (op : String) (args : List String) : String :=
